@@ -314,6 +314,14 @@ func (e *Engine) checkAssert(st *State, name string, cond *Term) {
 	e.solver.SyncTo(st.pcList())
 	e.stats.AssertQueries++
 	r, mdl := e.solver.CheckModel(neg, e.inputVars(st, neg))
+	if e.solver2 != nil && r != Unknown {
+		// every assertion verdict is re-asked of an independent solver build (z3 5.1.0)
+		e.solver2.SyncTo(st.pcList())
+		e.crossChecked++
+		if r2 := e.solver2.Check(neg); r2 != r && r2 != Unknown {
+			e.stats.Unsupported[fmt.Sprintf("solver disagreement at assert %s: z3=%s z3-new=%s", name, r, r2)]++
+		}
+	}
 	switch r {
 	case Sat:
 		site := ""
